@@ -46,7 +46,19 @@ def check(case, stats):
         before_mem = dict(ref.mem)
         at, word = ref.step()
         try:
-            r = sim.step()
+            # the documented machine is the same whether an instruction is driven as one step, as two single-cycle
+            # steps (the front end's default button) or as explicit first/second half-cycles
+            drive = case.get("drive", "step")
+            if drive == "single":
+                sim.single_step()
+                sim.single_step()
+                r = not sim.is_done()
+            elif drive == "halves":
+                sim.first_cycle_step()
+                sim.second_cycle_step()
+                r = not sim.is_done()
+            else:
+                r = sim.step()
         except Exception as ex:
             raise Violation("step-raises", case, f"step {n + 1} (word {word:#06x} at {at}): {type(ex).__name__}: {ex}")
         n += 1
@@ -69,6 +81,16 @@ def check(case, stats):
                             f"reference {ref.instructions}/{ref.cycles}/{ref.branches}")
         if bool(r) != (not ref.done()):
             raise Violation("step-return", case, f"{where}: step() returned {r!r}, reference done={ref.done()}")
+    if ref.done():
+        # execution has stopped: a further step executes nothing (and says so)
+        pm = sim.state.performance_metrics
+        c0 = (pm.instruction_count, pm.cycles, int(sim.state.accu))
+        try:
+            r = sim.step()
+        except Exception as ex:
+            raise Violation("step-raises", case, f"step() after the program has stopped: {type(ex).__name__}: {ex}")
+        if r or (pm.instruction_count, pm.cycles, int(sim.state.accu)) != c0:
+            raise Violation("executes-after-stop", case, f"step() after the program has stopped returned {r!r}, counters/accu {c0} -> {(pm.instruction_count, pm.cycles, int(sim.state.accu))}")
     # full memory comparison at the end
     got = {int(a): int(v) for a, v in sim.state.memory.memory_file.items() if int(v)}
     exp = {a: v for a, v in ref.mem.items() if v}
@@ -131,7 +153,7 @@ def program_case(draw):
             words[str(a)] = draw(word)
     accu = draw(st.one_of(st.sampled_from(ACC_B), st.integers(0, 0xFFFF)))
     return {"first": first, "len": n, "words": words, "accu": accu, "max": draw(st.sampled_from([60, 300])),
-            "via_text": n <= 24 and draw(st.integers(0, 7)) == 0}
+            "via_text": n <= 24 and draw(st.integers(0, 7)) == 0, "drive": draw(st.sampled_from(["step", "step", "single", "halves"]))}
 
 
 def corpus():
